@@ -18,6 +18,14 @@ Qed.
 Lemma res_map_id {A} (f : A -> res A) l : (forall x, In x l -> f x = Ok x) -> res_map f l = Ok l.
 Proof. intros H. rewrite (res_map_ok f (fun x => x)) by exact H. rewrite map_id. reflexivity. Qed.
 
+Lemma res_map_ok_map {A B C} (f : B -> res C) (h : A -> B) (g : A -> C) l :
+  (forall x, In x l -> f (h x) = Ok (g x)) -> res_map f (map h l) = Ok (map g l).
+Proof.
+  induction l as [|x r IH]; intros H; [reflexivity|].
+  cbn [res_map map]. rewrite (H x (or_introl eq_refl)). cbn [bind].
+  rewrite IH by (intros y Hy; apply H; right; exact Hy). reflexivity.
+Qed.
+
 (* ---------------------------------------------------------------- sort_by *)
 Section SortLemmas.
   Context {A : Type} (cmp : A -> A -> comparison).
@@ -391,4 +399,190 @@ Proof.
     f_equal.
     rewrite (rebuild_triple c (f_name f) (field_ws0 f) (f_first f) (map snd (f_cont f)) (conts_nonempty_map f Hne)).
     destruct (rebuild_field c (f_name f) (field_ws0 f) (f_first f) (map snd (f_cont f))); reflexivity.
+Qed.
+
+(* ---------------------------------------------------------------- Paragraph::wrap_and_sort on items *)
+Definition pre_elems (cs : list comment) : list tree := flat_map (fun c => comment_elems (fst c) (snd c)) cs.
+Definition group_tree (g : list comment * field) : list tree * tree := (pre_elems (fst g), field_tree (snd g)).
+
+Lemma pre_elems_app a b : pre_elems (a ++ b) = pre_elems a ++ pre_elems b.
+Proof. unfold pre_elems. apply flat_map_app. Qed.
+
+Lemma pws_scan_items its : forall cur acc,
+  pws_scan fixed (flat_map item_elems its) (pre_elems cur) acc =
+  Ok (acc ++ map group_tree (fst (group_items its cur)), pre_elems (snd (group_items its cur))).
+Proof.
+  induction its as [|it r IH]; intros cur acc.
+  - cbn [flat_map pws_scan group_items fst snd map]. rewrite app_nil_r. reflexivity.
+  - destruct it as [f|c nl].
+    + cbn [flat_map item_elems app]. unfold field_tree at 1. cbn [pws_scan ekind is_node].
+      change (@nil tree) with (pre_elems []). rewrite IH.
+      cbn [group_items]. destruct (group_items r []) as [gs tr]. cbn [fst snd map].
+      rewrite <- app_assoc. reflexivity.
+    + cbn [flat_map item_elems comment_elems app pws_scan ekind].
+      cbn [group_items].
+      destruct nl; cbn [nl_elem app pws_scan ekind v_para_nl fixed].
+      * rewrite <- app_assoc. cbn [app].
+        replace (pre_elems cur ++ [Tok COMMENT (35%N :: c); Tok NEWLINE [LF]]) with (pre_elems (cur ++ [(c, true)]))
+          by (rewrite pre_elems_app; unfold pre_elems at 2; cbn [flat_map fst snd comment_elems nl_elem app]; reflexivity).
+        apply IH.
+      * replace (pre_elems cur ++ [Tok COMMENT (35%N :: c)]) with (pre_elems (cur ++ [(c, false)]))
+          by (rewrite pre_elems_app; unfold pre_elems at 2; cbn [flat_map fst snd comment_elems nl_elem app]; reflexivity).
+        apply IH.
+Qed.
+
+Lemma group_items_In its : forall cur g, In g (fst (group_items its cur)) -> In (IField (snd g)) its.
+Proof.
+  induction its as [|it r IH]; intros cur g H; [contradiction|].
+  destruct it as [f|c nl]; cbn [group_items] in H.
+  - destruct (group_items r []) as [gs tr] eqn:E. cbn [fst] in H. destruct H as [<-|H]; [left; reflexivity|].
+    right. apply (IH [] g). rewrite E. exact H.
+  - right. apply (IH _ g H).
+Qed.
+
+Lemma res_map_emit_pre cs : res_map emit_token (pre_elems cs) = Ok (pre_elems cs).
+Proof.
+  apply res_map_id. intros x Hx. unfold pre_elems in Hx. apply in_flat_map in Hx. destruct Hx as (c & _ & Hx).
+  unfold comment_elems in Hx. destruct Hx as [<-|Hx]; [reflexivity|]. destruct (snd c); [|contradiction].
+  destruct Hx as [<-|[]]. reflexivity.
+Qed.
+
+Lemma item_elems_comments cs : flat_map item_elems (map comment_item cs) = pre_elems cs.
+Proof.
+  unfold pre_elems. induction cs as [|x l IHl]; [reflexivity|].
+  cbn [map flat_map comment_item item_elems]. rewrite IHl. reflexivity.
+Qed.
+
+Lemma item_elems_ungroup gs tr :
+  flat_map item_elems (ungroup gs tr) =
+  concat (map (fun g => pre_elems (fst g) ++ [field_tree (snd g)]) gs) ++ pre_elems tr.
+Proof.
+  unfold ungroup. rewrite flat_map_app, item_elems_comments. f_equal.
+  induction gs as [|g r IH]; [reflexivity|]. cbn [flat_map map concat]. rewrite flat_map_app, IH.
+  rewrite flat_map_app, item_elems_comments. reflexivity.
+Qed.
+
+(* the caller's comparator on entries depends only on names and values *)
+Definition ecmp_agrees (esort : option (tree -> tree -> comparison)) (ecmp : option pair_cmp) : Prop :=
+  match esort, ecmp with
+  | Some a, Some b => forall f g, a (field_tree f) (field_tree g) = b (field_pair f) (field_pair g)
+  | None, None => True
+  | _, _ => False
+  end.
+
+Definition field_ok (fmt : option (str -> str -> str)) (f : field) : Prop :=
+  f_name f <> [] /\ conts_nonempty f = true /\ fmt_lexes fmt f.
+Definition items_ok (fmt : option (str -> str -> str)) (its : list item) : Prop :=
+  forall f, In (IField f) its -> field_ok fmt f.
+
+Theorem para_ws_items c esort ecmp fmt its :
+  ind_ok c = true -> ecmp_agrees esort ecmp -> items_ok fmt its ->
+  para_ws fixed (c_ind c) (c_iel c) (c_mll c) esort (option_map pure_fmt fmt) (Node PARAGRAPH (flat_map item_elems its))
+  = Ok (Node PARAGRAPH (flat_map item_elems (a_ws_items c ecmp fmt its))).
+Proof.
+  intros Hind Hcmp Hok. unfold para_ws. cbn [children].
+  change (@nil tree) with (pre_elems []) at 1. rewrite pws_scan_items. cbn [bind app].
+  unfold a_ws_items. pose proof (group_items_In its []) as HIn.
+  destruct (group_items its []) as [gs tr]. cbn [fst snd] in *.
+  assert (Es : sort_opt (option_map on_snd esort) (map group_tree gs) = map group_tree (sort_opt (option_map on_field ecmp) gs)).
+  { apply sort_opt_map. unfold ecmp_agrees in Hcmp. destruct esort as [a|], ecmp as [b|]; cbn [option_map]; try contradiction; [|exact I].
+    intros x y. unfold on_snd, on_field, group_tree. cbn [snd]. apply Hcmp. }
+  rewrite Es. set (sorted := sort_opt (option_map on_field ecmp) gs).
+  assert (Hs : forall g, In g sorted -> field_ok fmt (snd g)).
+  { intros g Hg. apply Hok. apply HIn. apply (sort_opt_In _ _ _ Hg). }
+  rewrite (res_map_ok_map _ group_tree (fun g => pre_elems (fst g) ++ [field_tree (a_ws_field c fmt (snd g))])).
+  - cbn [bind]. rewrite res_map_emit_pre. cbn [bind]. f_equal. f_equal.
+    rewrite item_elems_ungroup, !map_map. cbn [fst snd]. reflexivity.
+  - intros g Hg. unfold group_tree. cbn [fst snd].
+    rewrite res_map_emit_pre. cbn [bind]. destruct (Hs g Hg) as (Hn & Hc & Hf).
+    rewrite (entry_ws_field c fmt (snd g) Hind Hn Hc Hf). reflexivity.
+Qed.
+
+(* ---------------------------------------------------------------- Deb822::wrap_and_sort on blocks *)
+Definition comment_node (c : comment) : tree := lblock_tree (comment_block c).
+Definition dgroup_tree (g : list comment * list item) : list tree * tree :=
+  (map comment_node (fst g), lblock_tree (LPara (snd g))).
+
+Lemma dws_scan_blocks l : forall cur acc,
+  dws_scan fixed (map lblock_tree l) (map comment_node cur) acc =
+  Ok (acc ++ map dgroup_tree (fst (group_blocks l cur)), map comment_node (snd (group_blocks l cur))).
+Proof.
+  induction l as [|b r IH]; intros cur acc.
+  - cbn [map dws_scan group_blocks fst snd]. rewrite app_nil_r. reflexivity.
+  - destruct b as [|c nl|its]; cbn [map lblock_tree dws_scan ekind is_node v_doc_lines fixed group_blocks].
+    + cbn [children existsb is_blank_kind ekind negb orb]. apply IH.
+    + cbn [children comment_elems existsb is_blank_kind ekind negb orb].
+      replace (map comment_node cur ++ [Node EMPTY_LINE (comment_elems c nl)])
+        with (map comment_node (cur ++ [(c, nl)])) by (rewrite map_app; reflexivity).
+      apply IH.
+    + change (@nil tree) with (map comment_node []). rewrite IH.
+      destruct (group_blocks r []) as [gs tr]. cbn [fst snd map]. rewrite <- app_assoc. reflexivity.
+Qed.
+
+Lemma group_blocks_In l : forall cur g, In g (fst (group_blocks l cur)) -> In (LPara (snd g)) l.
+Proof.
+  induction l as [|b r IH]; intros cur g H; [contradiction|].
+  destruct b as [|c nl|its]; cbn [group_blocks] in H.
+  - right. apply (IH _ g H).
+  - right. apply (IH _ g H).
+  - destruct (group_blocks r []) as [gs tr] eqn:E. cbn [fst] in H. destruct H as [<-|H]; [left; reflexivity|].
+    right. apply (IH [] g). rewrite E. exact H.
+Qed.
+
+Definition pcmp_agrees (psort : option (tree -> tree -> comparison)) (pcmp : option para_cmp) : Prop :=
+  match psort, pcmp with
+  | Some a, Some b => forall x y, a (lblock_tree (LPara x)) (lblock_tree (LPara y)) = b (flat_map item_pairs x) (flat_map item_pairs y)
+  | None, None => True
+  | _, _ => False
+  end.
+
+(* the caller's paragraph function does on the tree what [pf] does on the items *)
+Definition pfun_agrees (pfun : option (tree -> res tree)) (pf : list item -> list item) (its : list item) : Prop :=
+  match pfun with
+  | Some f => f (lblock_tree (LPara its)) = Ok (lblock_tree (LPara (pf its)))
+  | None => pf its = its
+  end.
+
+Lemma ensure_nl_para its : ensure_nl (lblock_tree (LPara its)) = lblock_tree (LPara (terminate_last its)).
+Proof.
+  cbn [lblock_tree]. rewrite <- ensure_nl_items. reflexivity.
+Qed.
+
+Lemma dws_emit_blocks pfun pf gs : forall first,
+  (forall g, In g gs -> pfun_agrees pfun pf (snd g)) ->
+  dws_emit fixed pfun first (map dgroup_tree gs) =
+  Ok (map lblock_tree (emit_blocks first (map (fun g => (fst g, terminate_last (pf (snd g)))) gs))).
+Proof.
+  induction gs as [|g r IH]; intros first H; [reflexivity|].
+  cbn [map dws_emit dgroup_tree fst snd].
+  change (dgroup_tree g) with (map comment_node (fst g), lblock_tree (LPara (snd g))).
+  rewrite (res_map_id (emit_current fixed)) by (intros x _; reflexivity). cbn [bind].
+  pose proof (H g (or_introl eq_refl)) as Hg. unfold pfun_agrees in Hg.
+  assert (Ep : match pfun with Some f => f (lblock_tree (LPara (snd g))) | None => Ok (lblock_tree (LPara (snd g))) end
+               = Ok (lblock_tree (LPara (pf (snd g))))).
+  { destruct pfun; [exact Hg|rewrite Hg; reflexivity]. }
+  rewrite Ep. cbn [bind v_terminate fixed]. rewrite ensure_nl_para.
+  rewrite (IH false) by (intros y Hy; apply H; right; exact Hy). cbn [bind emit_blocks fst snd].
+  f_equal. rewrite !map_app. cbn [map]. f_equal.
+  - destruct first; reflexivity.
+  - f_equal. rewrite map_map. reflexivity.
+Qed.
+
+Theorem doc_ws_blocks psort pcmp pfun pf l :
+  pcmp_agrees psort pcmp -> (forall its, In (LPara its) l -> pfun_agrees pfun pf its) ->
+  doc_ws fixed psort pfun (ltree_of l) = Ok (ltree_of (a_ws_doc pcmp pf l)).
+Proof.
+  intros Hcmp Hpf. unfold doc_ws, ltree_of. cbn [children].
+  change (@nil tree) with (map comment_node []) at 1. rewrite dws_scan_blocks. cbn [bind app].
+  unfold a_ws_doc. pose proof (group_blocks_In l []) as HIn.
+  destruct (group_blocks l []) as [gs tr]. cbn [fst snd] in *.
+  assert (Es : sort_opt (option_map on_snd psort) (map dgroup_tree gs) = map dgroup_tree (sort_opt (option_map on_para pcmp) gs)).
+  { apply sort_opt_map. unfold pcmp_agrees in Hcmp. destruct psort as [a|], pcmp as [b|]; cbn [option_map]; try contradiction; [|exact I].
+    intros x y. unfold on_snd, on_para, dgroup_tree. cbn [snd]. apply Hcmp. }
+  rewrite Es. set (sorted := sort_opt (option_map on_para pcmp) gs).
+  rewrite (dws_emit_blocks pfun pf sorted true).
+  - cbn [bind]. rewrite (res_map_id (emit_current fixed)) by (intros x _; reflexivity). cbn [bind v_terminate fixed].
+    f_equal. change (ensure_nl (Node ROOT ?cs)) with (Node ROOT (ensure_nl_list cs)).
+    f_equal. rewrite <- ensure_nl_root. f_equal. rewrite map_app, map_map. reflexivity.
+  - intros g Hg. apply Hpf. apply HIn. apply (sort_opt_In _ _ _ Hg).
 Qed.
